@@ -16,7 +16,7 @@ from ibldsp import utils
 # ------------------------------------------------------------------ all 65536 words
 def words_cases(tier, seed):
     # the whole word space in one vector, then in every chunking of a set of shapes
-    return ["1d-all", "1d-reversed", "2d-col", "2d-row", "int32", "uint16", "chunks-1", "chunks-7", "chunks-256", "single"]
+    return ["1d-all", "1d-reversed", "2d-col", "2d-row", "int32", "uint16", "chunks-1", "chunks-7", "chunks-256", "single", "twice"]
 
 
 def words_check(kind):
@@ -51,6 +51,16 @@ def words_check(kind):
             one(signed[a:a + c], ref[a:a + c], "%s@%d" % (kind, a))
             if v:
                 break
+    elif kind == "twice":
+        # the same contiguous int16 words decoded as a whole, then again as a whole and in chunks: the caller's words are not consumed
+        buf = signed.copy()
+        keep = buf.copy()
+        one(buf, ref, "first decode")
+        one(buf, ref, "second decode of the same array")
+        for a in range(0, 65536, 8192):
+            one(buf[a:a + 8192], ref[a:a + 8192], "chunk %d after whole-array decodes" % a)
+        if not np.array_equal(buf, keep):
+            v.append(("split_sync:input-modified", "split_sync changed the words handed to it"))
     elif kind == "single":
         for w in range(0, 65536, 1):
             if w % 257 and w not in (1, 2, 32767, 32768, 65535):
